@@ -237,9 +237,10 @@ ARG_LISTS = {
     "u64": lambda rng: rng.choice([["18446744073709551615", "9223372036854775808", "5"], ["18446744073709551614", "1", "18446744073709551615"],
                                    ["10", "9", "100"], ["9223372036854775807", "9223372036854775808"]]),
     "f64": lambda rng: rng.choice([["1.5", "0.25", "10", "-2.5"], ["3", "1e3", "0.001"], ["2.5", "2.25", "-0.5", "100.125"]]),
-    "string": lambda rng: rng.choice([["b", "a", "c"], ["x10", "x9", "x100"], ["foo", "Foo", "bar baz"], ["é", "z", "a1"], ["10", "9", "abc", "-4"]]),
-    "str": lambda rng: rng.choice([["b", "a"], ["v1.10", "v1.9", "v1.2"], ["one", "two", "three", "four"]]),
-    "strslice": lambda rng: rng.choice([["b", "a", "c"], ["k10", "k2", "k1"], ["solo"]]),
+    # string-typed lists whose texts are numbers: the documented order goes by the shown names, whatever type produced them
+    "string": lambda rng: rng.choice([["-0.5", "-2", "-10", "1.5", "1.25"], ["-3", "-20", "7", "-100"], ["b", "a", "c"], ["x10", "x9", "x100"], ["foo", "Foo", "bar baz"], ["é", "z", "a1"], ["10", "9", "abc", "-4"]]),
+    "str": lambda rng: rng.choice([["-2", "-10", "-0.5"], ["1.5", "1.25", "1e3", "-7"], ["b", "a"], ["v1.10", "v1.9", "v1.2"], ["one", "two", "three", "four"]]),
+    "strslice": lambda rng: rng.choice([["-1", "-11", "-2", "3"], ["2.5", "2.25", "-0.25"], ["b", "a", "c"], ["k10", "k2", "k1"], ["solo"]]),
     "char": lambda rng: rng.choice([["b", "a", "c"], ["z", "é", "A"], ["1", "9", "5"]]),
     "dbg": lambda rng: rng.choice([["1:2", "0:5", "-1:3"], ["3:3"]]),
 }
